@@ -217,6 +217,20 @@ def liveOf : W J → Option Unit
   | .exited => none
   | _ => some ()
 
+/-! ### the job lists of `DistMatrix`'s producer and the cells a job owns -/
+
+/-- half-matrix mode: `for i := 0; i < n; i++ { for j := i+1; j < n; j++ { … } }` -/
+def halfJobs (n : Nat) : List (Nat × Nat) :=
+  (List.range n).flatMap fun i => ((List.range n).filter (i < ·)).map fun j => (i, j)
+
+/-- range mode: `for i := r1min; i <= r1max; i++ { for j := r2min; j <= r2max; j++ { if j != i { … } } }` -/
+def rangeJobs (r1min r1max r2min r2max : Nat) : List (Nat × Nat) :=
+  (List.range' r1min (r1max + 1 - r1min)).flatMap fun i =>
+    ((List.range' r2min (r2max + 1 - r2min)).filter (· != i)).map fun j => (i, j)
+
+/-- the worker for pair `(i, j)` writes `outmatrix[i][j]` and `outmatrix[j][i]` -/
+def cellsOf (p : Nat × Nat) : List (Nat × Nat) := [(p.1, p.2), (p.2, p.1)]
+
 /-- the sequential result -/
 def seqStore (f : J → V) (jobs : List J) : List (J × V) := jobs.map fun j => (j, f j)
 
